@@ -181,13 +181,18 @@ func (interp *Interpreter) rootFromSourceLocation() (string, error) {
 	if sourceFile == DefaultSourceName {
 		return "", nil
 	}
-	wd, err := os.Getwd()
-	if err != nil {
-		return "", err
+	pkgDir := filepath.Dir(sourceFile)
+	srcDir := filepath.Join(interp.context.GOPATH, "src") + string(filepath.Separator)
+	if !strings.HasPrefix(pkgDir, srcDir) && !filepath.IsAbs(pkgDir) {
+		// Not in GOPATH as is: a path relative to the working directory.
+		wd, err := os.Getwd()
+		if err != nil {
+			return "", err
+		}
+		pkgDir = filepath.Join(wd, pkgDir)
 	}
-	pkgDir := filepath.Join(wd, filepath.Dir(sourceFile))
-	root := strings.TrimPrefix(pkgDir, filepath.Join(interp.context.GOPATH, "src")+"/")
-	if root == wd {
+	root := strings.TrimPrefix(pkgDir, srcDir)
+	if root == pkgDir {
 		return "", fmt.Errorf("package location %s not in GOPATH", pkgDir)
 	}
 	return root, nil
